@@ -211,7 +211,11 @@ macro_rules! for_all_n {
             5 => $f::<$g, 5>($ctx, $idx),
             8 => $f::<$g, 8>($ctx, $idx),
             13 => $f::<$g, 13>($ctx, $idx),
+            16 => $f::<$g, 16>($ctx, $idx),
             17 => $f::<$g, 17>($ctx, $idx),
+            32 => $f::<$g, 32>($ctx, $idx),
+            64 => $f::<$g, 64>($ctx, $idx),
+            128 => $f::<$g, 128>($ctx, $idx),
             33 => $f::<$g, 33>($ctx, $idx),
             65 => $f::<$g, 65>($ctx, $idx),
             129 => $f::<$g, 129>($ctx, $idx),
@@ -222,7 +226,7 @@ macro_rules! for_all_n {
 
 pub fn run(ctx: &mut Ctx) {
     let reps = if ctx.thorough() { 300 } else { 8 };
-    let ns = [1usize, 2, 3, 5, 8, 13, 17, 33, 65, 129];
+    let ns = [1usize, 2, 3, 5, 8, 13, 16, 17, 32, 33, 64, 65, 128, 129];
     let mut idx = 0;
     for rep in 0..reps {
         for &n in ns.iter() {
